@@ -35,6 +35,36 @@ fn main() {
                 if t.elapsed().as_secs_f64() > 0.5 { eprintln!("   SLOW {:?}", t.elapsed()); }
             }}}
         }
+        "selftest" => {
+            // calibration of the statistical rule + golden agreement; `--fast` = 1 repeat at n = 1e6
+            let fast = args.iter().any(|a| a == "--fast");
+            let (n, bad) = golden::check("/verif/golden/ref.json", false);
+            println!("golden rows checked: {n}, mismatches: {}", bad.len());
+            let (cells, false_rej, planted, missed, msgs) = selftest::run(if fast { 1 } else { 40 }, 1_000_000);
+            for m in &msgs { println!("{m}"); }
+            println!("selftest: synthetic cells {cells}, false rejections {false_rej}; planted defects {planted}, missed {missed}");
+            std::process::exit(if bad.is_empty() && n > 0 && false_rej == 0 && missed == 0 { 0 } else { 2 });
+        }
+        "fuzz-replay" => {
+            // verif fuzz-replay <target> <artifact file>: re-decode a libFuzzer artifact and re-check it with the plain binary
+            let target = args.get(2).cloned().unwrap_or_default();
+            let path = args.get(3).cloned().unwrap_or_default();
+            let data = std::fs::read(&path).unwrap_or_else(|e| { eprintln!("cannot read {path}: {e}"); std::process::exit(2) });
+            report::quiet_panics();
+            match fuzzdec::run_target(&target, &data) {
+                Some(msg) => {
+                    let prop = match target.as_str() { "stream_case" => "C03", "ctor_case" => "C04", "tree_history" => "C09", _ => "C14" };
+                    let prop = args.get(4).cloned().unwrap_or_else(|| prop.to_string());
+                    let dst = format!("/verif/replays/{}-fuzz-{:08x}.bin", prop, rng::hstr(&msg) & 0xffff_ffff);
+                    let _ = std::fs::create_dir_all("/verif/replays");
+                    let _ = std::fs::copy(&path, &dst);
+                    println!("VIOLATION property={} replay={}", prop, dst);
+                    println!("  detail: fuzz target {target}: {}", msg.chars().take(600).collect::<String>());
+                    std::process::exit(1);
+                }
+                None => { println!("fuzz artifact {path}: property held on replay"); std::process::exit(0); }
+            }
+        }
         "replay" => {
             // verif replay <file>: deterministic re-execution of one case, bypassing proptest / libFuzzer
             let path = args.get(2).cloned().unwrap_or_default();
@@ -51,6 +81,7 @@ fn main() {
                 "stream" => if prop == "C05" { termination::replay(&ctx, case) } else { streams::replay(&ctx, case) },
                 "exact" => exact::replay(&ctx, case),
                 "ctor" => ctors::replay(&ctx, case),
+                "tree_freq" | "alias_sample" | "alias_stream" => { eprintln!("frequency cases are re-run by the check itself (seeded)"); false }
                 "alias" | "tree" | "tree_sample" => weighted::replay(&ctx, case),
                 "affine" => affine::replay(&ctx, case),
                 "dirichlet" | "geom" => multi::replay(&ctx, case),
@@ -135,6 +166,7 @@ fn main() {
                 }
                 "C04" => {
                     ctors::run(&ctx);
+                    weighted::run_c04_part(&ctx);
                     ctx.finish("case = one constructor call; (1) exhaustive cross product of the per-type special-value lattice for every constructor and float type, (2) proptest-random tuples (any bit pattern, biased to the lattice) with shrinking; oracle = three-valued table transcribed from the doc comments (MustErr(variants)/MustOk/Unspecified) + no panic + accessors bit-equal; non-trivial = tuple contains a lattice value", &["Appendix C of DESIGN.md is a faithful transcription of the doc comments", "Hypergeometric tuples with construction cost > 2^27 loop steps are skipped (counted)"], false)
                 }
                 "C08" => {
